@@ -10,10 +10,11 @@ const char *CHK_RULE = "one case = one history: a table with prefix-related name
                        "a line typed a name that matches (exactly or as prefix) at least one currently disabled command; distinct by (table size, flag vector hash, line class, "
                        "selected command)";
 
-static struct { int ci, kind; bool var; } cb[32]; static int ncb;
+static struct { int ci, kind; bool var; } cb[32]; static int ncb; static int last_served = -1;
 static cat_return_state policy(struct hcall *h)
 {
         if (ncb < 32) { cb[ncb].ci = h->ci; cb[ncb].kind = h->kind; cb[ncb].var = false; } ncb++;
+        if (h->fsm == FSM_A) last_served = h->ci;
         if (h->kind == K_RUN && strcmp(h->cmd->name, "#H") == 0) return CAT_RETURN_STATE_PRINT_CMD_LIST_OK;
         return CAT_RETURN_STATE_OK;
 }
@@ -86,9 +87,9 @@ struct case_budget chk_budget(const char *tier)
 }
 void chk_run_case(uint64_t seed, long c, bool is_sweep)
 {
-        (void)seed; (void)c; (void)is_sweep; note[0] = 0; last_line[0] = 0;
+        (void)seed; (void)c; (void)is_sweep; note[0] = 0; last_line[0] = 0; last_served = -1;
         w_begin();
-        size_t ng = 1 + rn(3), ncmd = ng + (chance(15) ? rn(100) : rn(10));
+        size_t ng = chance(15) ? 4 + rn(MAXGRP - 5) : 1 + rn(3), ncmd = ng + (chance(15) ? rn(100) : rn(10));
         size_t per[MAXGRP] = { 0 }; for (size_t g = 0; g < ng; g++) per[g] = 1; for (size_t i = ng; i < ncmd; i++) per[rn(ng)]++;
         unsigned asz = 2 + rn(3), aoff = rn((unsigned)sizeof AL - 1 - asz);
         size_t k = 0; static char names[MAXCMD][12];
@@ -117,8 +118,20 @@ void chk_run_case(uint64_t seed, long c, bool is_sweep)
         for (unsigned l = 0; l < nlines && !case_failed(); l++) {
                 /* flag changes between lines, parser quiescent */
                 if (chance(40)) { unsigned nf = 1 + rn(3); for (unsigned q = 0; q < nf; q++) { if (chance(25)) { struct cat_command_group *g = W.grp[rn(W.ngroups)]; if (!g->disable && chance(50)) continue; g->disable = !g->disable; CNT("group_flag_flips"); } else { struct cat_command *cm = W.cmd[rn(W.ncmds)]; if (!cm->disable && chance(60)) continue; cm->disable = !cm->disable; CNT("command_flag_flips"); } } }
+                if (last_served >= 0 && (size_t)last_served < W.ncmds && chance(15)) {       /* the application switches off exactly what it has just served (a one-shot command) */
+                        if (chance(70)) { if (!W.cmd[last_served]->disable) { W.cmd[last_served]->disable = true; CNT("command_flag_flips"); } }
+                        else if (!W.grp[W.grp_of[last_served]]->disable) { W.grp[W.grp_of[last_served]]->disable = true; CNT("group_flag_flips"); }
+                        CNT("commands_disabled_right_after_being_served");
+                }
                 in_reset();
                 if (chance(8)) in_puts("AT#H");
+                else if (chance(7)) {       /* lines from terminal practice that no command-table grammar produces ("A/" repeats the last command on a Hayes modem, ';' chains commands, ...) */
+                        unsigned form = rn(3);
+                        if (form == 1) { in_puts("AT"); in_puts(names[rn(ncmd)]); }
+                        in_puts(LORE[chance(50) ? 1 + rn(3) : rn(N_LORE)]);
+                        if (form == 2) { in_puts(chance(50) ? "AT" : ""); in_puts(names[rn(ncmd)]); }
+                        CNT("lines_with_terminal_lore_sequences");
+                }
                 else {
                         in_puts(chance(50) ? "AT" : "at");
                         const char *nm = names[rn(ncmd)]; size_t L = strlen(nm), take = chance(55) ? L : rn(L + 1);
